@@ -1437,7 +1437,7 @@ impl Prop for C29 {
         "C29"
     }
     fn rule(&self) -> &'static str {
-        "queries typed as text (read with variable_names) and run through '$toplevel':run_query_goal/4 on a machine whose user_output is a callback stream, once with a collecting callback around write_leaf_answer/2 and once with the toplevel's own toplevel_query_callback/read_input in 'all solutions' mode; (a) programs of the C07 space (shared::proggen) with up to 4 queries each, (b) answer-shaping queries: conjunctions/disjunctions/negations of X = Term, X = Y, member/2, between/3, append/3, length/2, atom_chars/2, copy_term/2, dif/2, freeze/2, throw/1 over terms with prefix/infix operators, special atoms, negative numbers, floats, strings, partial lists and partial strings, anonymous variables, under 6 variable naming schemes (including names that collide with fabricated _A/_B and _-prefixed names); judged against findall/3 on the same machine, the reference interpreter (a), re-reading and re-running every printed answer, and setup_call_cleanup/3 determinism; non-trivial = a query with >= 2 answers, an answer with residual goals, or an answer that needs quoting or bracketing; distinct by case encoding"
+        "queries typed as text (read with variable_names) and run through '$toplevel':run_query_goal/4 on a machine whose user_output is a callback stream, once with a collecting callback around write_leaf_answer/2 and once with the toplevel's own toplevel_query_callback/read_input in 'all solutions' mode; (a) programs of the C07 space (shared::proggen) with up to 4 queries each, (b) answer-shaping queries: conjunctions/disjunctions/negations of X = Term, X = Y, member/2, between/3, append/3, length/2, atom_chars/2, copy_term/2, dif/2, freeze/2, throw/1 over terms with prefix/infix operators, special atoms, negative numbers, floats, strings, partial lists and partial strings, anonymous variables, under 6 variable naming schemes (including names that collide with fabricated _A/_B and _-prefixed names); (c) every atom of the vocabulary as the value that ends the last answer (enumerated), (d) a small tier that pipes the deterministic queries of (a)+(b) into the real binary entry run_binary in a child process and compares stdout with the in-process transcript; judged against findall/3 on the same machine, the reference interpreter (a), re-reading (also with the toplevel's final dot) and re-running every printed answer, and setup_call_cleanup/3 determinism; non-trivial = a query with >= 2 answers, an answer with residual goals, or an answer that needs quoting or bracketing; distinct by case encoding"
     }
     fn assumptions(&self) -> Vec<String> {
         vec![
